@@ -45,6 +45,29 @@ CLAIMS = {
         note="An operation is in flight from the moment the library calls the storage until it returns (time parked "
              "at the gate included).",
         ref="3 C04", technique=TECH + " (CopyMon.tla accounting monitors)"),
+    "C19": dict(
+        text="Pack.tla states the four packers as a decision table over (version, artifactType class, config class, "
+             "config annotations, layers, subject, annotations, target); PackCases.tla model-checks the table and emits "
+             "the whole case space, which the Go driver replays into the real PackManifest/Pack with a recording "
+             "target; PackJudge.tla compares the returned descriptor, the stored bytes, the parsed manifest, the "
+             "recorded pushes and a second call with Expected(case), judging media types (RFC 6838) and created "
+             "timestamps (RFC 3339) character by character.",
+        note="The media-type rejection clause is applied to PackManifest (documented to validate); the deprecated Pack "
+             "entry points are judged on their success clauses and on created-time rejection. Calendar validity of "
+             "timestamps beyond field ranges is not modelled.",
+        ref="3 C19", technique="TLA+ decision table model-checked with TLC; TLC-generated cases replayed into the code and "
+                              "judged by TLC (conformance in direction spec -> code)"),
+    "C20": dict(
+        text="RefGrammar.tla formalises the documented grammar twice (automaton and structural) and RefBuild.tla checks "
+             "them against each other on every string up to length 5/6 over the grammar's alphabet; the real "
+             "ParseReference, Reference.String, Repository.ParseReference and the URLs a Repository requests are "
+             "recorded for the same exhaustive set plus generated long digests, tags, registries and mutations, and "
+             "RefJudge.tla computes the expected outcome for each record in TLA+ and compares.",
+        note="Registry authorities outside the must-accept (host[:port] over [A-Za-z0-9.-]) and must-reject classes "
+             "and strings ending in a bare ':' or '@' are not judged for acceptance, as the property states. "
+             "Registered digest algorithms are sha256/sha384/sha512.",
+        ref="3 C20", technique="TLA+ recognisers model-checked with TLC; TLC judges records of the real parser (trace "
+                              "validation, exhaustive to a length bound)"),
 }
 
 NOT_YET = {}
